@@ -2159,6 +2159,9 @@ func (s *swamp) SaveFunction(t treasure.Treasure, guardID guard.ID) treasure.Tre
 		s.sendSwampInfo()
 
 		// immediately write the treasure to the chroniclerInterface if the write interval is 0
+		// the changes of this save are processed: a later save of the same data is "same"
+		t.ResetChangeFlags(guardID)
+
 		s.mu.RLock()
 		wi := s.writeInterval
 		inMem := s.inMemorySwamp
@@ -2249,6 +2252,9 @@ func (s *swamp) SaveFunction(t treasure.Treasure, guardID guard.ID) treasure.Tre
 		s.sendEventToHydra(t, existedTreasureObj, treasure.StatusModified)
 
 		// immediately write the treasure to the chroniclerInterface if the write interval is 0
+		// the changes of this save are processed: a later save of the same data is "same"
+		t.ResetChangeFlags(guardID)
+
 		s.mu.RLock()
 		wi := s.writeInterval
 		inMem := s.inMemorySwamp
